@@ -20,13 +20,14 @@
 //!   newline (the generator never makes one; seeing one is a harness error => inconclusive), a
 //!   `Copied` entry (`FileHeader::Copied => todo!()`, same "marked unimplemented" class as binary;
 //!   only reachable with `rad diff`'s find options) — such cases are counted as `excluded:*`;
-//! * never generated: empty files (they do not "end with a newline"), mode-only changes, symlinks,
+//! * never generated: empty files (they do not "end with a newline"), symlinks,
 //!   submodules, path names that git would quote (the encoder documents them as TODO), non-UTF-8
 //!   contents.
 //!
 //! Secondary clauses (own signatures): `encode(decode(text)) == text`; and per file the content
 //! level `DiffContent::parse(content.to_unified_string())` (heartwood's own hunk/line decoder) keeps
-//! hunk count, header numbers + text and every line's kind, bytes and numbers.
+//! hunk count, header numbers + text and every line's kind, bytes and numbers, and re-encodes to the
+//! same text.
 use std::collections::{BTreeMap, BTreeSet};
 
 use radicle::git::raw as git2;
@@ -124,6 +125,27 @@ const SPECIAL: &[&str] = &[
     "similarity index 100%", "Binary files a/x and b/x differ", "GIT binary patch", "literal 0", "From 0123456789abcdef0123456789abcdef01234567 Mon Sep 17 00:00:00 2001", "-- ", "+ ", "- ",
 ];
 
+/// Per-case workload partition. Half of the cases carry no line that ends in whitespace and half
+/// carry no exact rename, so that a quarter of the cases exercises everything else with none of the
+/// two shapes that are known to fail; the other cases aim at exactly those shapes.
+#[derive(Clone, Copy, Debug)]
+struct Style {
+    /// no generated line ends in a character for which `char::is_whitespace` holds (no CR either)
+    ws_free: bool,
+    /// no file is renamed with identical content
+    no_moves: bool,
+}
+
+impl Style {
+    fn fin(&self, l: String) -> String {
+        if self.ws_free {
+            l.trim_end().to_string()
+        } else {
+            l
+        }
+    }
+}
+
 fn pk(rng: &mut Rng, xs: &[&'static str]) -> &'static str {
     xs[rng.usize(xs.len())]
 }
@@ -146,12 +168,29 @@ fn plain(rng: &mut Rng) -> String {
 
 /// A line that git would pick as function context (starts with a letter).
 fn alpha_line(rng: &mut Rng) -> String {
-    format!("{} {}", rng.pick(&["fn", "impl", "struct", "pub fn", "class", "def", "mod"]), plain(rng))
+    let mut s = format!("{} {}", rng.pick(&["fn", "impl", "struct", "pub fn", "class", "def", "mod"]), plain(rng));
+    match rng.below(12) {
+        // long multi-byte tail: libgit2 cuts the function-context text after 80 bytes
+        0 | 1 => {
+            for _ in 0..20 + rng.usize(40) {
+                s.push_str(pk(rng, UNI));
+            }
+        }
+        // non-ASCII space at the end (libgit2 only trims ASCII blanks from the context text)
+        2 => s.push_str(pk(rng, UNI_SPACE)),
+        _ => {}
+    }
+    s
 }
 
 /// One line, without its terminating "\n". Never contains '\n' or NUL or control characters other
 /// than TAB / CR / FF (so that libgit2's binary heuristic does not fire).
-fn gen_line(rng: &mut Rng) -> String {
+fn gen_line(rng: &mut Rng, st: Style) -> String {
+    let l = gen_line_raw(rng);
+    st.fin(l)
+}
+
+fn gen_line_raw(rng: &mut Rng) -> String {
     match rng.weighted(&[26, 10, 8, 5, 8, 12, 8, 2, 4, 1, 3, 2, 3, 4]) {
         0 => plain(rng),
         1 => format!("{}{}", pk(rng, BLANKS), plain(rng)),
@@ -202,25 +241,12 @@ fn gen_line(rng: &mut Rng) -> String {
         10 => format!("{}{}", plain(rng), pk(rng, UNI_SPACE)),
         11 => format!("{}{}", pk(rng, UNI_SPACE), plain(rng)),
         12 => format!("{}{}{}", pk(rng, BLANKS), plain(rng), pk(rng, BLANKS)),
-        _ => {
-            // function-context candidate whose 80th byte falls inside multi-byte characters, or
-            // that ends in a non-ASCII space
-            let mut s = alpha_line(rng);
-            match rng.below(3) {
-                0 => {
-                    for _ in 0..20 + rng.usize(40) {
-                        s.push_str(pk(rng, UNI));
-                    }
-                }
-                1 => s.push_str(pk(rng, UNI_SPACE)),
-                _ => {}
-            }
-            s
-        }
+        // function-context candidate (sometimes with a long multi-byte tail or a non-ASCII space)
+        _ => alpha_line(rng),
     }
 }
 
-fn gen_lines(rng: &mut Rng) -> Vec<String> {
+fn gen_lines(rng: &mut Rng, st: Style) -> Vec<String> {
     let n = match rng.weighted(&[2, 2, 6, 8, 3]) {
         0 => 1,
         1 => 2,
@@ -228,14 +254,14 @@ fn gen_lines(rng: &mut Rng) -> Vec<String> {
         3 => 15 + rng.usize(50),
         _ => 60 + rng.usize(120),
     };
-    let crlf_file = rng.chance(1, 12);
+    let crlf_file = rng.chance(1, 12) && !st.ws_free;
     let tame = rng.chance(1, 4); // mostly plain lines: realistic source file with few oddities
     (0..n)
         .map(|_| {
             let mut l = if tame && rng.chance(5, 6) {
-                if rng.chance(1, 5) { alpha_line(rng) } else { format!("    {}", plain(rng)) }
+                if rng.chance(1, 5) { st.fin(alpha_line(rng)) } else { format!("    {}", plain(rng)) }
             } else {
-                gen_line(rng)
+                gen_line(rng, st)
             };
             if crlf_file && !l.ends_with('\r') {
                 l.push('\r');
@@ -259,7 +285,7 @@ fn split(content: &str) -> Vec<String> {
 }
 
 /// Edit a non-empty line list at 1..=4 sites; the result is non-empty and different.
-fn edit_lines(rng: &mut Rng, old: &[String]) -> Vec<String> {
+fn edit_lines(rng: &mut Rng, st: Style, old: &[String]) -> Vec<String> {
     let mut new = old.to_vec();
     let sites = 1 + rng.usize(4);
     for _ in 0..sites {
@@ -268,7 +294,7 @@ fn edit_lines(rng: &mut Rng, old: &[String]) -> Vec<String> {
             0 => {
                 let at = rng.usize(len + 1);
                 for _ in 0..1 + rng.usize(3) {
-                    let l = gen_line(rng);
+                    let l = gen_line(rng, st);
                     new.insert(at, l);
                 }
             }
@@ -279,13 +305,13 @@ fn edit_lines(rng: &mut Rng, old: &[String]) -> Vec<String> {
             }
             2 => {
                 let at = rng.usize(len);
-                new[at] = gen_line(rng);
+                new[at] = gen_line(rng, st);
             }
             3 => {
                 // whitespace-only tweak of an existing line: the region the encoder is suspected in
                 let at = rng.usize(len);
                 let l = new[at].clone();
-                new[at] = match rng.below(7) {
+                let t = match rng.below(7) {
                     0 => format!("{l} "),
                     1 => format!("{l}\t"),
                     2 => l.trim_end().to_string(),
@@ -300,6 +326,7 @@ fn edit_lines(rng: &mut Rng, old: &[String]) -> Vec<String> {
                     5 => format!("{l}{}", pk(rng, UNI_SPACE)),
                     _ => l.trim_start().to_string(),
                 };
+                new[at] = st.fin(t);
             }
             4 if len > 1 => {
                 let at = rng.usize(len - 1);
@@ -331,13 +358,14 @@ fn fresh_path(rng: &mut Rng, taken: &BTreeSet<String>) -> String {
 
 fn gen_case(seed: u64) -> Case {
     let mut rng = Rng::new(seed);
+    let st = Style { ws_free: rng.bool(), no_moves: rng.bool() };
     let mut old = Tree::new();
     let mut taken: BTreeSet<String> = BTreeSet::new();
     let nold = if rng.chance(1, 20) { 0 } else { 1 + rng.usize(6) };
     for _ in 0..nold {
         let p = fresh_path(&mut rng, &taken);
         taken.insert(p.clone());
-        let lines = gen_lines(&mut rng);
+        let lines = gen_lines(&mut rng, st);
         old.insert(p, FileSpec { content: join(&lines), exec: rng.chance(1, 8) });
     }
     let mut new = Tree::new();
@@ -347,12 +375,16 @@ fn gen_case(seed: u64) -> Case {
         if wipe {
             break;
         }
-        match rng.weighted(&[4, 10, 2, 3, 2, 1, 1]) {
+        let mut op = rng.weighted(&[8, 20, 4, 6, 4, 1, 2, 1]);
+        if op == 3 && st.no_moves {
+            op = 4;
+        }
+        match op {
             0 => {
                 new.insert(p.clone(), f.clone());
             }
             1 => {
-                let lines = edit_lines(&mut rng, &split(&f.content));
+                let lines = edit_lines(&mut rng, st, &split(&f.content));
                 new.insert(p.clone(), FileSpec { content: join(&lines), exec: f.exec });
             }
             2 => {} // deleted
@@ -366,7 +398,7 @@ fn gen_case(seed: u64) -> Case {
                 // rename with content change (delete + add under exact-match rename detection)
                 let q = fresh_path(&mut rng, &taken);
                 taken.insert(q.clone());
-                let lines = edit_lines(&mut rng, &split(&f.content));
+                let lines = edit_lines(&mut rng, st, &split(&f.content));
                 new.insert(q, FileSpec { content: join(&lines), exec: f.exec });
             }
             5 => {
@@ -374,14 +406,18 @@ fn gen_case(seed: u64) -> Case {
                 // (`rad diff` options report a copy => excluded; review options report an addition)
                 let q = fresh_path(&mut rng, &taken);
                 taken.insert(q.clone());
-                let lines = edit_lines(&mut rng, &split(&f.content));
+                let lines = edit_lines(&mut rng, st, &split(&f.content));
                 new.insert(p.clone(), FileSpec { content: join(&lines), exec: f.exec });
                 new.insert(q, f.clone());
             }
-            _ => {
+            6 => {
                 // content change together with a flipped executable bit
-                let lines = edit_lines(&mut rng, &split(&f.content));
+                let lines = edit_lines(&mut rng, st, &split(&f.content));
                 new.insert(p.clone(), FileSpec { content: join(&lines), exec: !f.exec });
+            }
+            _ => {
+                // only the executable bit flips: a Modified entry without hunks
+                new.insert(p.clone(), FileSpec { content: f.content.clone(), exec: !f.exec });
             }
         }
     }
@@ -389,12 +425,12 @@ fn gen_case(seed: u64) -> Case {
     for _ in 0..nadd {
         let p = fresh_path(&mut rng, &taken);
         taken.insert(p.clone());
-        let lines = gen_lines(&mut rng);
+        let lines = gen_lines(&mut rng, st);
         new.insert(p, FileSpec { content: join(&lines), exec: rng.chance(1, 8) });
     }
     if new == old {
         let p = fresh_path(&mut rng, &taken);
-        let lines = gen_lines(&mut rng);
+        let lines = gen_lines(&mut rng, st);
         new.insert(p, FileSpec { content: join(&lines), exec: false });
     }
     // `rad diff` default is 5, `git` default 3, `rad patch review -U`
@@ -667,6 +703,17 @@ fn content_level(out: &mut Findings, fi: usize, f: &FileDiff) {
             return;
         }
     };
+    // encode(decode(text)) == text on the body level (what the crate's own unit test asserts for
+    // one fixture)
+    match guarded(|| dec.to_unified_string()) {
+        Ok(Ok(t2)) if t2 == text => {}
+        Ok(Ok(t2)) => {
+            let (a, b) = first_diff_line(&text, &t2);
+            out.add("C30/content-level/reencode/text-differs", json!({"at": loc, "first_differing_line": {"encode(content)": clip(&a), "encode(decode(text))": clip(&b)}}));
+        }
+        Ok(Err(e)) => out.add("C30/content-level/reencode/encode-error", json!({"at": loc, "error": e.to_string()})),
+        Err(p) => out.add(&format!("C30/content-level/reencode/encode-panic/{}", vcommon::panic_site(&p)), json!({"at": loc, "panic": p})),
+    }
     let hd = hunks(&dec);
     if hd.len() != hs.len() {
         out.add("C30/content-level/hunks/count-differs", json!({"at": loc, "want": hs.len(), "got": hd.len()}));
@@ -741,7 +788,7 @@ fn observe(rep: &mut Reporter, d: &Diff, c: &Case) {
         }
         if let FileDiff::Modified(m) = f {
             if m.old.mode != m.new.mode {
-                rep.count("file:mode-and-content-change");
+                rep.count(if hs.is_empty() { "file:mode-change-only" } else { "file:mode-and-content-change" });
             }
         }
         for h in hs {
@@ -806,6 +853,11 @@ fn observe(rep: &mut Reporter, d: &Diff, c: &Case) {
                 }
             }
         }
+    }
+    if d.files().any(|f| matches!(f, FileDiff::Moved(_))) {
+        rep.count("case:has-moved-file");
+    } else {
+        rep.count("case:no-moved-file");
     }
     // per-case: how many cases contain a line whose trailing whitespace matters / none at all
     if seen.iter().any(|c| matches!(*c, "line:trailing-blank" | "line:crlf" | "line:trailing-unicode-space" | "line:whitespace-only")) {
@@ -888,7 +940,9 @@ fn evaluate(rep: &mut Reporter, repo: &git2::Repository, c: &Case) {
         }
         Ok(Err(e)) => {
             let kinds: BTreeSet<&str> = d.files().map(kind).collect();
-            out.add(&format!("C30/decode-error/{}", stable(&e.to_string())), json!({"error": e.to_string(), "kinds_in_diff": kinds, "text": clip(&text)}));
+            // which shape of input: a diff with a renamed file is its own class
+            let class = if kinds.contains("moved") { "diff-with-moved-file/" } else { "" };
+            out.add(&format!("C30/decode-error/{class}{}", stable(&e.to_string())), json!({"error": e.to_string(), "kinds_in_diff": kinds, "text": clip(&text)}));
         }
         Err(p) => out.add(&format!("C30/decode-panic/{}", vcommon::panic_site(&p)), json!({"panic": p, "text": clip(&text)})),
     }
@@ -951,7 +1005,7 @@ pub fn run(args: &Args) {
         rep.finish();
         return;
     }
-    let n = args.budget(40_000, 2_000_000);
+    let n = args.budget(160_000, 4_000_000);
     for k in 0..n {
         let c = gen_case(args.case_seed(k));
         evaluate(&mut rep, &repo, &c);
